@@ -2,8 +2,8 @@
 (* C05 VAL -- verdicts and outputs recorded from the REAL code are validated against the specification.
    trace.ndjson, one case per line:
      [id, cls, ctx, inp (symbols of the value), acc (TRUE: the real sanitiser returned the value unchanged),
-      css (symbols of the text the CSS parser receives from the real output), br / ev / sig (what the harness's
-      Go port of acceptor + consumer computed)]
+      css (symbols of the text the CSS parser receives from the real output), rawattr (symbols of the raw attribute
+      value as rendered; empty for the other sinks), br / ev / sig (what the harness's Go port computed)]
    The spec re-computes: model acceptance and branch for inp (NFA run of the acceptor), the consumer's event on
    the REAL css text, and the signature; a disagreement with the port is a machinery error.                  *)
 EXTENDS SinksCssCases
@@ -19,9 +19,10 @@ TInit == /\ i = 1 /\ fails = <<>> /\ mism = <<>>
 LineJudge(e) ==
     LET ac == Accepting(e.cls, e.inp)
         b == IF ac.found THEN AccAccept(e.cls, ac.a) ELSE ""
-        ev == IF e.acc THEN ConsumerEvent(e.cls, e.ctx, e.css) ELSE ""
+        ev == IF e.acc THEN ContextEvent(e.cls, e.ctx, e.css, e.rawattr) ELSE ""
         ev1 == ConsumerEvent(e.cls, "attr", e.inp)
         sig == IF ev = "" THEN ""
+               ELSE IF ev = "EndAttr" THEN "StyleAttr.NotEscaped"
                ELSE IF b = "" THEN e.cls \o ".NotAcceptedByModel"
                ELSE IF e.ctx = "attr" /\ ev1 = "" THEN "StyleAttr.DoubleEscape"
                ELSE Attribute(e.cls, ac.a, b)
